@@ -34,7 +34,7 @@ theorem flatMap_le_getElem? (L : List Nat) (m : Nat) :
 theorem blockByte_take (blocks : List Nat) (d m : Nat) (h : m < 4 * d) :
     blockByte (blocks.take d) m = blockByte blocks m := by
   have : m / 4 < d := by omega
-  simp [blockByte, List.getD_eq_getElem?_getD, List.getElem?_take, this]
+  simp [blockByte, List.getD_eq_getElem?_getD, this]
 
 /-- the data bytes `save_to_writer` emits for one table -/
 def Table.dataBytes (t : Table) : List Nat := (List.range (t.size / 8 + 1)).map (blockByte t.blocks)
@@ -62,7 +62,7 @@ theorem Table.save_eq (t : Table) (hlen : t.blocks.length = nblocks t.size) :
       have h4 : m - 4 * ((t.size / 8 + 1) / 4) < 4 := by omega
       have h5 : m / 4 = (t.size / 8 + 1) / 4 := by omega
       have h6 : m % 4 = m - 4 * ((t.size / 8 + 1) / 4) := by omega
-      simp [hrem, List.getElem?_take, h3, le_getElem?, h4, List.getElem?_range h2, blockByte, h5, h6]
+      simp [hrem, h3, le_getElem?, h4, List.getElem?_range h2, blockByte, h5, h6]
     · have h3 : ¬ m - 4 * ((t.size / 8 + 1) / 4) < (t.size / 8 + 1) % 4 := by omega
       have : (List.range (t.size / 8 + 1))[m]? = none := by simp; omega
       simp [this]
@@ -182,7 +182,7 @@ theorem wcab_getD (size : Nat) (raw : List Nat) (i : Nat) :
     · simp [hr]
     · have : i - raw.length < nblocks size := by omega
       have hn : raw[i]? = none := by simp; omega
-      simp [hr, this, hn]
+      simp [hr, this]
   · simp [hi]
 
 theorem wcab_get (size : Nat) (raw : List Nat) (hraw : ∀ i, raw.getD i 0 < 2 ^ 32) (b : Nat) :
